@@ -599,6 +599,11 @@ def _mkval(spec):
         return Value(exact_str(spec[1], shift_of(spec[2])) + ' ' + unit_text(spec[2], 'BTC')), Fraction(spec[1]), kind
     if kind == 'Value.from_satoshi':
         return Value.from_satoshi(spec[1]), Fraction(spec[1]), kind
+    if kind == 'Decimal':                  # ['Decimal', text]
+        from decimal import Decimal
+        return Decimal(spec[1]), Fraction(spec[1]), kind
+    if kind == 'Fraction':                 # ['Fraction', numerator, denominator]
+        return Fraction(spec[1], spec[2]), Fraction(spec[1], spec[2]), kind
     raise ValueError(kind)
 
 
@@ -775,7 +780,7 @@ def sub_txflags(case):
         wire = rtx.parse(t.raw()).vout[0]['value']
     except Exception as e:
         valid = integral and 0 <= n < (1 << 64)
-        undocumented = path in ('add_output',) and kind not in ('int', 'float')
+        undocumented = path in ('add_output',) and kind not in ('int', 'float', 'Decimal', 'Fraction')
         if valid and not undocumented:
             rec.dev('%s|valid_amount_refused_at_%s|%s' % (site, stage, type(e).__name__),
                     {'case': case, 'exc': repr(e)[:200]})
@@ -783,7 +788,7 @@ def sub_txflags(case):
             rec.o('refused_at_%s%s' % (stage, '_undocumented_type' if (valid and undocumented) else ''))
         return rec.result()
     rec.nt.add(repr(case))
-    if path == 'add_output' and kind not in ('int', 'float'):
+    if path == 'add_output' and kind not in ('int', 'float', 'Decimal', 'Fraction'):
         rec.o('add_output_undocumented_type_accepted')       # documented type is int: observed only
         return rec.result()
     det = {'case': case, 'stored': repr(stored), 'wire_output': wire, 'input_total': repr(t.input_total),
@@ -1430,7 +1435,10 @@ def run(ctx):
                  ['str', 1, 'sat', ''], ['str', 90000, '', 'BTC'], ['str', 123456789, 'm', 'BTC'],
                  ['str', SUPPLY, '', ''], ['str', -1, 'sat', ''],
                  ['substr', 15, 'sat'], ['substr', 5, ''], ['substr', 899999, 'm'],
-                 ['Value', 90000, 'sat'], ['Value', 123456789, 'm'], ['Value.from_satoshi', 90000]]
+                 ['Value', 90000, 'sat'], ['Value', 123456789, 'm'], ['Value.from_satoshi', 90000],
+                 # other numeric types: a whole amount may be taken or refused, a fraction of a unit is never dropped
+                 ['Decimal', '150000'], ['Decimal', '150000.5'], ['Decimal', '0.9'], ['Decimal', '-1'],
+                 ['Fraction', 300001, 2], ['Fraction', 90000, 1], ['Fraction', 1, 3]]
         cases = [{'path': pth, 'strict': st, 'flag': fl, 'wt': wt, 'spec': k}
                  for pth in ('Output', 'add_output', 'Input', 'add_input') for st in (True, False)
                  for fl in (False, True) for wt in ('legacy', 'segwit') for k in kinds]
